@@ -226,3 +226,29 @@ def run_variant_boundaries(ck, F, rule="C08.variant-dictionary-offsets-on-bounda
                        "character boundaries of the (whole-buffer validated) values", b.loc(tg))
     if not found:
         ck.bad(rule, "dispatch", "no dispatch on header.is_sorted found in with_full_validation (anchor moved)", "%s:%s" % (fn["file"], fn["line"]))
+
+
+# ---------------------------------------------------------------------------------------------------------
+def run_variant_children(ck, F, rule="C08.variant-full-validation-recurses"):
+    ck.rule(rule, "inside the with_full_validation methods of the Variant containers (list, object) nested values are built with the fully validating constructors: "
+            "a `*_shallow_validation` constructor there marks a container validated whose grandchildren were never looked at", floor=2)
+    crate = F.crate("parquet_variant")
+    for fn in crate.fns:
+        if "mir" not in fn or fn["kind"] == "Closure" or not re.search(r"::with_full_validation$", fn["id"]):
+            continue
+        fns, i = [fn], 0
+        while i < len(fns):
+            fns += [c for c in crate.closures_of.get(fns[i]["id"], []) if "mir" in c]
+            i += 1
+        shallow = None
+        for f in fns:
+            b = Body(f)
+            for bb, t in b.calls():
+                if re.search(r"shallow_validation$", callee(t) or ""):
+                    shallow = shallow or (b.loc(bb), callee(t))
+        key = flow.norm(fn["id"])
+        if shallow:
+            ck.bad(rule, key, "%s builds a nested value with %s: the nested container is only shallowly checked while this one is marked fully validated, and the accessors "
+                   "documented as panic-free then panic on corrupted grandchildren" % (fn["id"], shallow[1]), shallow[0])
+        else:
+            ck.ok(rule, key, "no shallow constructor inside full validation")
